@@ -77,6 +77,8 @@ def _check_case_inner(ctx, case):
     # fitted model evaluates to the documented combination
     pts = [(float(xb[i % nx]), float(tb[j % nt])) for i, j in ((0, 0), (1, 1), (nx - 1, 0), (0, nt - 1))]
     pts.append((float(xb[-1]) * 0.37, float(tb[-1]) * 0.61))
+    # lag pairs on the axes and the origin: the marginal models contribute their value at lag 0 (the nugget)
+    pts += [(float(xb[nx // 2]), 0.0), (0.0, float(tb[nt // 2])), (0.0, 0.0)]
     with quiet():
         for h, t in pts:
             got = float(fm(np.array([h, t])))
